@@ -22,19 +22,40 @@ def r1(ctx):
     rt = b.return_term()
     labels, W = Sym(fi.params[0]), Sym(fi.params[1])
     Wm1 = tm.add(W, -1)
-    fronts = [tm.to_int(tm.div(Wm1, 2)), tm.floordiv(Wm1, tm.const(2))]
+    # floor((W-1)/2) in the forms integer arithmetic offers for W >= 1: int(n/2), n//2, n - ceil(n/2) = n - (n+1)//2
+    fronts = [tm.to_int(tm.div(Wm1, 2)), tm.floordiv(Wm1, tm.const(2)), tm.add(Wm1, tm.neg(tm.floordiv(W, tm.const(2))))]
     marker = Lst([tm.const(-1)])
+
+    def for_positive(t):
+        # `n // 2 if n > 0 else 0`: the guarded form agrees with floor(n/2) on the property's domain (W >= 1, n >= 0)
+        if isinstance(t, PW) and len(t.pieces) == 2:
+            pos = [v for g_, v in t.pieces if g_.key == tm.compare(">", Wm1, 0).key]
+            rest = [v for g_, v in t.pieces if g_.key != tm.compare(">", Wm1, 0).key]
+            if len(pos) == 1 and rest == [tm.ZERO]:
+                return pos[0]
+        return t
     ok = isinstance(rt, Cat) and len(rt.parts) == 3 and rt.parts[1] == labels
     if not ctx.check(ok, fi, "result is front markers ++ labels ++ back markers, in that order", role="order",
                      expected="[-1]*front + labels + [-1]*back", found=str(rt)[:160]):
         return
     f, bk = rt.parts[0], rt.parts[2]
+    if isinstance(f, Rep) and isinstance(bk, Rep):
+        fc = for_positive(f.count)
+        f = Rep(f.seq, fc)
+        if fc is not rt.parts[0].count:
+            # the back count was computed from the guarded front count: read it on the same domain
+            bc = bk.count
+            if isinstance(bc, PW):
+                pos = [v for g_, v in bc.pieces if g_.key == tm.compare(">", Wm1, 0).key]
+                bc = pos[0] if len(pos) == 1 else bc
+            bk = Rep(bk.seq, bc)
     okf = isinstance(f, Rep) and f.seq == marker and f.count in fronts
     ctx.check(okf, fi, "front margin is floor((W-1)/2) markers of value -1", role="front", expected=f"[-1] * {fronts[0]}", found=str(f))
     okb = isinstance(bk, Rep) and bk.seq == marker and isinstance(f, Rep) and tm.add(bk.count, f.count) == Wm1
     ctx.check(okb, fi, "back margin is (W-1) - front markers of value -1", role="back", expected=f"[-1] * ((W-1) - front)", found=str(bk))
-    ctx.check(tm.length(rt) == tm.add(tm.length(labels), Wm1), fi, "length grows by exactly W-1", role="length",
-              expected=str(tm.add(tm.length(labels), Wm1)), found=str(tm.length(rt)))
+    total = tm.length(Cat([f, rt.parts[1], bk])) if isinstance(f, Rep) and isinstance(bk, Rep) else tm.length(rt)
+    ctx.check(total == tm.add(tm.length(labels), Wm1), fi, "length grows by exactly W-1", role="length",
+              expected=str(tm.add(tm.length(labels), Wm1)), found=str(total))
 
 
 @rule("C04", "R2", "AGREE", "the stacker's row count and the joint front end's stacked sizes are both T_k - W + 1", floor=2)
@@ -112,6 +133,19 @@ def _r3(ctx):
         return
     lo, hi = elt.idx[0].lo, elt.idx[0].hi
     his = [Idx(E, (k,)), Idx(App("itertools.accumulate", (L,)), (k,))]
+
+    def prefix_sum(upto):
+        # SUM_{j < upto} L[j] - the running-offset formulation (start = end carried through the loop) of accumulate(L)[upto - 1]
+        from ..terms import Sum
+        return lambda t: isinstance(t, Sum) and t.guard is None and len(t.binders) == 1 and t.binders[0][1] == Range(0, upto) \
+            and t.body == Idx(L, (t.binders[0][0],))
+    running = lo is not None and prefix_sum(k)(lo)
+    if running:
+        ctx.check(hi == tm.add(lo, Idx(L, (k,))), fi, "slice k ends at the cumulative length e_k (running offset: end = start + L[k])", role="end",
+                  expected=f"{lo} + {Idx(L, (k,))}", found=str(hi))
+        ctx.ok(fi, "slice k starts at e_{k-1} = L[0] + ... + L[k-1] (0 for the first series): parts are adjacent and disjoint", role="start",
+               found=str(lo))
+        return
     ctx.check(hi in his, fi, "slice k ends at the cumulative length e_k", role="end", expected=str(his[0]), found=str(hi))
     want_lo = PW([(tm.compare("==", k, 0), tm.ZERO), (tm.compare("!=", k, 0), Idx(E, (tm.add(k, -1),)))])
     alt = Idx(Cat([Lst([tm.ZERO]), E]), (k,))
